@@ -25,7 +25,8 @@ EXTENDS KS, Json, SequencesExt
 Edits == {"none", "ridge-first-point-twice", "ridge-last-point-twice", "ridge-single-point", "ridge-middle-point-twice",
           "trench-point-twice", "segment-zero-length", "segment-zero-thickness", "polygon-vertex-twice", "polygon-zero-area",
           "min-equals-max-depth", "plume-zero-width", "spreading-zero", "slab-ridge-point-twice", "fault-vertical-zero-thickness",
-          "model-range-touches-feature-bottom", "model-range-touches-feature-top", "model-range-empty"}
+          "model-range-touches-feature-bottom", "model-range-touches-feature-top", "model-range-empty",
+          "dip-zero", "dip-180", "dips-nearly-equal", "plume-eccentricity-near-one", "plume-single-section"}
 Ridge(sph, e, y0, y1) ==
   CASE e = "ridge-first-point-twice"  -> << <<XY(sph, 500, y0), XY(sph, 500, y0), XY(sph, 500, y1)>> >>
     [] e = "ridge-last-point-twice"   -> << <<XY(sph, 500, y0), XY(sph, 500, y1), XY(sph, 500, y1)>> >>
@@ -57,6 +58,9 @@ KinkSlabE(sph, e) ==
        XY(sph, 2000, 800), 0, 600*Km,
        CASE e = "segment-zero-length" -> <<Segment(200*Km, <<100*Km>>, <<0>>, <<30, 60>>), Segment(0, <<100*Km>>, <<0>>, <<60>>), Segment(200*Km, <<100*Km, 50*Km>>, <<0>>, <<60>>)>>
          [] e = "segment-zero-thickness" -> <<Segment(200*Km, <<100*Km, 0>>, <<0>>, <<30, 60>>), Segment(200*Km, <<0>>, <<0>>, <<60>>)>>
+         [] e = "dip-zero" -> <<Segment(200*Km, <<100*Km>>, <<0>>, <<0>>), Segment(200*Km, <<100*Km>>, <<0>>, <<0, 40>>)>>
+         [] e = "dip-180" -> <<Segment(200*Km, <<100*Km>>, <<0>>, <<90, 180>>), Segment(100*Km, <<100*Km>>, <<0>>, <<180>>)>>
+         [] e = "dips-nearly-equal" -> <<Segment(200*Km, <<100*Km>>, <<0>>, <<30, Dec(300000001, -7)>>), Segment(200*Km, <<100*Km>>, <<0>>, <<Dec(300000001, -7), 30>>)>>
          [] OTHER -> <<Segment(200*Km, <<100*Km>>, <<0>>, <<30, 60>>), Segment(200*Km, <<100*Km, 50*Km>>, <<0>>, <<60>>)>>,
        <<   ("model" :> "mass conserving") @@ ("density" :> 3300) @@ ("thermal conductivity" :> Dec(33, -1))
          @@ ("adiabatic heating" :> TRUE) @@ ("spreading velocity" :> Dec(5, -2)) @@ ("subducting velocity" :> Dec(5, -2))
@@ -75,6 +79,9 @@ KSEdit(sph, e) ==
     [] e = "polygon-zero-area"    -> [F EXCEPT ![2]["coordinates"] = <<XY(sph, 500, 0), XY(sph, 750, 250), XY(sph, 1000, 500)>>]
     [] e = "min-equals-max-depth" -> [F EXCEPT ![3]["max depth"] = 100*Km, ![1]["min depth"] = 200*Km]
     [] e = "plume-zero-width"     -> [F EXCEPT ![4]["semi-major axis"] = <<0, 0>>]
+    [] e = "plume-eccentricity-near-one" -> [F EXCEPT ![4]["eccentricity"] = <<Dec(999999, -6), 1>>]
+    [] e = "plume-single-section" -> [F EXCEPT ![4]["coordinates"] = <<XY(sph, 250, 250)>>, ![4]["cross section depths"] = <<50*Km>>,
+                                               ![4]["semi-major axis"] = <<U(sph, 100)>>, ![4]["eccentricity"] = <<Dec(5, -1)>>, ![4]["rotation angles"] = <<30>>]
     [] e = "fault-vertical-zero-thickness" -> [F EXCEPT ![6]["segments"] = <<Segment(200*Km, <<0>>, <<0>>, <<90>>)>>]
     \* a model whose own depth range meets the feature's range in a single depth (or is empty): the overlap has no thickness
     [] e = "model-range-touches-feature-bottom" ->
@@ -117,7 +124,7 @@ SphereSpecial ==
     <<"meridian-180", R, 180, 0, 0>>, <<"meridian-minus-180", R, -180, 0, 0>>, <<"meridian-180-deep", R - 50*Km, 180, Rat(25, 10), 50*Km>>,
     <<"centre", 0, 0, 0, R>>, <<"near-centre", 1, 0, 0, R - 1>>, <<"above-surface", R + 1000, Rat(25, 10), Rat(25, 10), -1000>> }
 
-Lists == {<<PT>>, <<PT, PC(0), PC(2), PC(5), PC(6), PC(7), PC(8), PG(0, 2), PTag, PV>>}
+Lists == {<<PT>>, <<PT, PC(0), PC(2), PC(5), PC(6), PC(7), PC(8), PG(0, 2), PTag, PV>>, <<PG(0, 0), PT, PG(1, 0)>>}      \* also: zero grains asked for
 
 Point(k, x, y, d) == CASE k = "spherical" -> [sph |-> <<R - d, Rat(x, 100), Rat(y, 100)>>]
                        [] k = "cartesian" -> [p |-> <<x * Km, y * Km, H - d>>]
